@@ -1,16 +1,25 @@
 // ---- unit prelude: topic_limit (C15) ---------------------------------------------------------------
 
 // A-float: `Topic::is_almost_full` compares against `(limit as f64 * 0.9) as u64`; floats are outside Verus'
-// subset. Uninterpreted, with the one fact the property needs — a full topic is almost full — and the float-free
-// half of its body: the `Unlimited` and `ServerDefault` arms return false (so dropping the redundant
-// `is_unlimited()` test in the maintenance pass is not an alarm).
-pub uninterp spec fn almost_full(t: &Topic) -> bool;
-impl Topic {
-    #[verifier::external_body]
-    pub fn is_almost_full(&self) -> (r: bool)
-        ensures r == almost_full(self), topic_full(self) ==> r, !(self.max_topic_size is Custom) ==> !r,
-    { unimplemented!() }
+// subset. Since round 16 the REAL body of is_almost_full is under contract (seed C15_6 made it read the stream's counter):
+// only the float expression itself is handed to a stub (rule R4-float-threshold) whose value is uninterpreted, with the
+// one fact the property needs — the threshold does not exceed the limit, i.e. a full topic is almost full. (For every
+// u64 l: `l as f64` rounds to at most l(1+2^-53), times 0.9 (0.90000000000000002) stays below l for l >= 1, the cast
+// back truncates; l = 0 gives 0.)
+pub uninterp spec fn almost_threshold(limit: u64) -> u64;
+#[verifier::external_body]
+pub fn almost_full_threshold(limit: u64) -> (r: u64)
+    ensures r == almost_threshold(limit), r <= limit,
+{ unimplemented!() }
+pub open spec fn almost_full(t: &Topic) -> bool {
+    t.max_topic_size is Custom && t.size_bytes.v >= almost_threshold(t.max_topic_size->Custom_0.v)
 }
+
+// the executor's view of the system: `system.read().await` is the identity (R5); only the configuration is read
+#[verifier::external_body]
+pub fn archiver_clone(a: &Option<ArchiverKind>) -> (r: Option<ArchiverKind>)
+    ensures r is Some <==> a is Some,
+{ unimplemented!() }
 
 // the archiver (third-party back ends: disk / S3) — opaque; answers are arbitrary
 #[verifier::external_body]
